@@ -262,11 +262,21 @@ func (s *sut) apply(f []string) (out string) {
 		}
 		return s.inboundListener(wire.Dec(f[1]), parseLabels(f[2]), nil, inboundOpts{hbone: true})
 	case "ils":
-		if len(f) != 5 && len(f) != 6 {
+		if len(f) != 5 && len(f) != 6 && len(f) != 7 {
 			return "bad-op"
 		}
 		return s.inboundListener(wire.Dec(f[1]), parseLabels(f[2]), parseIngress(f[3]),
-			inboundOpts{merge: f[4] == "1", interceptNone: len(f) == 6 && f[5] == "1"})
+			inboundOpts{merge: f[4] == "1", interceptNone: len(f) >= 6 && f[5] == "1", unprivileged: len(f) == 7 && f[6] == "1"})
+	case "ilt":
+		if len(f) != 3 {
+			return "bad-op"
+		}
+		return s.inboundListener(wire.Dec(f[1]), parseLabels(f[2]), nil, inboundOpts{tproxy: true})
+	case "ilr":
+		if len(f) != 4 {
+			return "bad-op"
+		}
+		return s.inboundListener(wire.Dec(f[1]), parseLabels(f[2]), nil, inboundOpts{svcs: parseSvcs(f[3])})
 	case "ilp":
 		if len(f) != 4 {
 			return "bad-op"
